@@ -359,7 +359,7 @@ func TestReplay(t *testing.T) {
 }
 
 func TestRandom(t *testing.T) {
-	pbt.Check(t, 3000, 400000, func(rt *rapid.T) {
+	pbt.Check(t, 3000, 200000, func(rt *rapid.T) {
 		g := gen.Graph(rt, 6, 12)
 		steps := gen.Traversal(rt, gen.TravOpts{MaxLen: 10, RowCountHint: 5})
 		c := Case{Graph: g, Steps: steps}
